@@ -2,6 +2,7 @@ package main
 
 import (
 	"fmt"
+	"go/token"
 	"go/types"
 	"sort"
 	"strings"
@@ -168,9 +169,10 @@ func callWrapsError(call *ssa.Call) bool {
 }
 
 func checkC05(c *Ctx, r *Report) {
-	r.Rules = []string{"D1+D5 plan decision table", "D6 Less ordering table", "K2 insert-after-collision-check", "K1 key=destination", "O5 parents-before-entry / sort-before-return", "T2 order-insensitive map iteration (files, glob)", "G-base the base of every relative-path computation is a whole directory", "G-prefix no bare string-prefix containment test on paths", "G-cutset trim cutsets with path characters are single characters", "G-rooted absolute-path normalisers anchor at the root before cleaning", "fixture", "O5-parents-clean ancestors are those of the normalised destination", "D5-glob-source expanded entries come from glob.Glob", "K2b an implied directory (and nothing else) is replaced by a declared one"}
+	r.Rules = []string{"D1+D5 plan decision table", "D6 Less ordering table", "K2 insert-after-collision-check", "K1 key=destination", "O5 parents-before-entry / sort-before-return", "T2 order-insensitive map iteration (files, glob)", "G-base the base of every relative-path computation is a whole directory", "G-prefix no bare string-prefix containment test on paths", "G-cutset trim cutsets with path characters are single characters", "G-rooted absolute-path normalisers anchor at the root before cleaning", "fixture", "O5-parents-clean ancestors are those of the normalised destination", "D5-glob-source expanded entries come from glob.Glob", "K2b an implied directory (and nothing else) is replaced by a declared one", "K2c an occupant of the other kind always fails; an occupant under the insert's key fails or is replaced", "K5-changelog the generated deb changelog entry joins the contents whenever a changelog is configured"}
 	r.Explanation = "Static decision of the structural necessary conditions of content planning: (D1+D5) files.PrepareForPackager is abstractly evaluated (finite-domain constant propagation over go/ssa, no execution) for every cell packager x entry-packager-tag x entry type, and the set of live plan mechanisms (skip / dir insert / single insert / tree walk / glob / invalid-type error) is compared with the table transcribed from the statement; (D6) Contents.Less is evaluated on all 27 orderings of (destination, type, packager) and must be the lexicographic order; (K2) every insert into the destination map is dominated by a lookup on the same map whose occupied edge can return the collision error; (O5) parents are added before each declared entry and the returned slice is sorted before every success return; (T2) every map range in files/glob is order-insensitive by an enumerated idiom; (G-base) every definition of the base argument of filepath.Rel in files and internal/glob is the entry's configured path or was cut at a separator by filepath.Dir after any string slicing, and (G-prefix) no strings.HasPrefix/TrimPrefix/CutPrefix in those packages takes a computed prefix that does not end in a separator by construction - a common string prefix is not a directory. Not decided: lexical cleaning, which directory is the deepest common one for a given match list, tree walking on disk."
 	r.Explanation += " (G-cutset) constant cutsets of strings.Trim* that contain path characters are single characters. (G-rooted) every return of files.NormalizeAbsolute* is cleaned after being anchored at the root, and a '/' suffix is appended only where the root has been told apart. (O5-parents-clean) the enumeration of an entry's ancestors starts from its normalised destination. (K3) the helper that switches between the two key spellings is given the entry's normalised key."
+	r.Explanation += " (K2c) from the occupied edge of every collision probe all paths end in an error return - or, under the insert's own key, at the insert (whose admissible occupants K2b decides) - never back in the scan or at a success return; inserts of implied parents are exempt under their own key. (K5-changelog) the function that creates the changelog-typed entry, evaluated with a changelog configured, must-reaches the store of the extended contents."
 	r.Assumptions = []string{
 		"filepath.Clean/Join/Rel, fileglob and WalkDir behave as documented (path normalisation semantics are not analysed)",
 		"a Content entry is touched by the planner's selection logic only through ==/!= comparisons of its Type and Packager fields (any other use makes the evaluator fork both ways)",
@@ -304,6 +306,7 @@ func checkC05(c *Ctx, r *Report) {
 			construct := fmt.Sprintf("insert#%d in %s", countInsertsBefore(fn, mu), c.funcKey(fn))
 			ok2, why := insertGuarded(c, fn, mu, collisionFns)
 			r.Check(ok2, "K2", construct, c.instrPos(mu), why)
+			checkOtherKindFails(c, r, fn, mu, construct, collisionFns)
 			if ok2 {
 				checkReplacementTable(c, r, fn, mu, construct)
 			}
@@ -346,6 +349,7 @@ func checkC05(c *Ctx, r *Report) {
 	})
 	r.Floor("T2", n, 2)
 	checkGlobBase(c, r)
+	checkChangelogJoinsPlan(c, r)
 	r.Exhaustive = true
 }
 
@@ -470,6 +474,16 @@ func insertGuarded(c *Ctx, fn *ssa.Function, mu *ssa.MapUpdate, collisionFns map
 				continue
 			}
 			occupied := ifi.Block().Succs[0]
+			if g.via != nil {
+				// inside the helper the occupied edge returns the collision
+				// error; in the inserting function the helper's error leaves
+				// before the insert
+				fail := nilTestFailEdge(g.via)
+				if reachesCollisionReturn(occupied, nil, collisionFns) && fail != nil && fail != mu.Block() && !blockReaches(fail, mu.Block()) {
+					return true, fmt.Sprintf("dominated by the probe helper called at %s: its occupied edge returns the collision error, which leaves before the insert", c.instrPos(g.via))
+				}
+				continue
+			}
 			if reachesCollisionReturn(occupied, mu, collisionFns) {
 				return true, fmt.Sprintf("dominated by the collision probe at %s whose occupied edge returns the collision error", c.instrPos(g.at))
 			}
@@ -968,6 +982,7 @@ type guardLookup struct {
 	index ssa.Value // key of a direct lookup (nil for a helper)
 	forms map[string]bool
 	nkeys int
+	via   *ssa.Call // the call of an error-returning probe helper the lookup sits in (nil: in the inserting function)
 }
 
 func guardsOf(c *Ctx, fn *ssa.Function, mu *ssa.MapUpdate) []guardLookup {
@@ -995,7 +1010,7 @@ func guardsOf(c *Ctx, fn *ssa.Function, mu *ssa.MapUpdate) []guardLookup {
 				return
 			}
 			v, ok := extracts(x)
-			out = append(out, guardLookup{x, v, ok, x.Index, keySpellings(c, x.Index, fn, 0), 1})
+			out = append(out, guardLookup{at: x, val: v, ok: ok, index: x.Index, forms: keySpellings(c, x.Index, fn, 0), nkeys: 1})
 		case *ssa.Call:
 			sc := x.Call.StaticCallee()
 			if sc == nil || sc.Blocks == nil || !c.isModuleFunc(sc) || !instrDominates(x, mu) {
@@ -1009,6 +1024,38 @@ func guardsOf(c *Ctx, fn *ssa.Function, mu *ssa.MapUpdate) []guardLookup {
 				}
 			}
 			res := sc.Signature.Results()
+			if mi >= 0 && mi < len(sc.Params) && res.Len() == 1 && types.Identical(res.At(0).Type(), errorType) && onlyProbes(sc, sc.Params[mi]) {
+				// a probe helper that reports the collision itself: its
+				// lookups guard the insert through the error it returns
+				forEachInstr(sc, func(i2 ssa.Instruction) {
+					lk, isLk := i2.(*ssa.Lookup)
+					if !isLk || !lk.CommaOk || lk.X != ssa.Value(sc.Params[mi]) {
+						return
+					}
+					v, ok := extracts(lk)
+					g := guardLookup{at: lk, val: v, ok: ok, forms: keySpellingsAt(c, lk.Index, sc, x), nkeys: 1, via: x}
+					// the helper's key is the same field of the same entry as the insert's key
+					if ld, isLd := lk.Index.(*ssa.UnOp); isLd && ld.Op == token.MUL {
+						if fa, isFA := ld.X.(*ssa.FieldAddr); isFA {
+							if prm, isPrm := fa.X.(*ssa.Parameter); isPrm {
+								for i, q := range sc.Params {
+									if q != prm || i >= len(x.Call.Args) {
+										continue
+									}
+									if ld2, ok2 := mu.Key.(*ssa.UnOp); ok2 && ld2.Op == token.MUL {
+										if fa2, ok3 := ld2.X.(*ssa.FieldAddr); ok3 && fa2.Field == fa.Field && (fa2.X == x.Call.Args[i] || sameValue(fa2.X, x.Call.Args[i])) {
+											g.index = mu.Key
+											g.forms = keySpellings(c, mu.Key, fn, 0)
+										}
+									}
+								}
+							}
+						}
+					}
+					out = append(out, g)
+				})
+				return
+			}
 			if mi < 0 || mi >= len(sc.Params) || res.Len() != 2 || !isContentPtr(res.At(0).Type()) {
 				return
 			}
@@ -1031,7 +1078,7 @@ func guardsOf(c *Ctx, fn *ssa.Function, mu *ssa.MapUpdate) []guardLookup {
 				return
 			}
 			v, ok := extracts(x)
-			out = append(out, guardLookup{x, v, ok, nil, forms, n})
+			out = append(out, guardLookup{at: x, val: v, ok: ok, forms: forms, nkeys: n})
 		}
 	})
 	return out
@@ -1253,4 +1300,158 @@ func sortedAtReturn(fn *ssa.Function, v ssa.Value, ret *ssa.Return, depth int) b
 		}
 	}
 	return rets > 0
+}
+
+// onlyProbes: the helper only looks the map parameter up - it neither updates
+// it nor hands it on.
+func onlyProbes(fn *ssa.Function, m *ssa.Parameter) bool {
+	if m.Referrers() == nil {
+		return false
+	}
+	n := 0
+	for _, ref := range *m.Referrers() {
+		switch x := ref.(type) {
+		case *ssa.Lookup:
+			if x.X == ssa.Value(m) {
+				n++
+				continue
+			}
+			return false
+		case *ssa.DebugRef:
+		default:
+			return false
+		}
+	}
+	return n > 0
+}
+
+// checkOtherKindFails (K2c): an occupant of the other kind - a non-directory
+// where a directory is wanted, or the reverse - is never tolerated: from the
+// occupied edge of a probe under the other spelling every path ends in an
+// error return, whatever the occupant is (no `continue`, no type test that
+// lets some occupants through).
+func checkOtherKindFails(c *Ctx, r *Report, fn *ssa.Function, mu *ssa.MapUpdate, construct string, collisionFns map[*ssa.Function]bool) {
+	insSp := joinSorted(keySpellings(c, mu.Key, fn, 0))
+	for li, g := range guardsOf(c, fn, mu) {
+		if g.via != nil || g.ok == nil || g.ok.Referrers() == nil || g.index == nil {
+			continue
+		}
+		// under the insert's own key an implied directory may be replaced
+		// (K2b decides for which occupants): there the occupied edge may also
+		// end at the insert itself - but nowhere else
+		own := sameValue(g.index, mu.Key) || joinSorted(g.forms) == insSp
+		if own && insertsOnlyImplicitDirs(fn, mu) {
+			continue // an implied parent that is already there (as a directory) is simply not added again
+		}
+		for _, ref := range *g.ok.Referrers() {
+			ifi, ok := ref.(*ssa.If)
+			if !ok {
+				continue
+			}
+			occupied := ifi.Block().Succs[0]
+			home := g.at.Block()
+			bad := ""
+			seen := map[*ssa.BasicBlock]bool{}
+			var dfs func(b *ssa.BasicBlock)
+			dfs = func(b *ssa.BasicBlock) {
+				if seen[b] || bad != "" {
+					return
+				}
+				seen[b] = true
+				if own && b == mu.Block() {
+					return // the replacement
+				}
+				if b != occupied && (b == home || b.Dominates(home)) {
+					bad = "control returns to " + c.instrPos(b.Instrs[0]) + " (the scan goes on)"
+					return
+				}
+				if ret, isRet := b.Instrs[len(b.Instrs)-1].(*ssa.Return); isRet {
+					fails := errorIsNonNilAt(ret)
+					if !fails {
+						res := retResults(ret)
+						if len(res) > 0 {
+							v := res[len(res)-1]
+							if ex, isEx := v.(*ssa.Extract); isEx {
+								v = ex.Tuple
+							}
+							if cl, isCl := v.(*ssa.Call); isCl {
+								if sc := cl.Call.StaticCallee(); sc != nil && collisionFns[sc] {
+									fails = true
+								}
+							}
+						}
+					}
+					if !fails {
+						bad = "the return at " + c.instrPos(ret) + " can report success"
+					}
+					return
+				}
+				for _, s := range b.Succs {
+					dfs(s)
+				}
+			}
+			dfs(occupied)
+			if own {
+				r.Check(bad == "", "K2c", fmt.Sprintf("%s [lookup#%d under the insert's key]: an occupant fails or is replaced", construct, li+1), c.instrPos(g.at),
+					"from the edge on which the destination is occupied "+bad+": for some occupants the new entry would be dropped without the collision being reported")
+				continue
+			}
+			r.Check(bad == "", "K2c", fmt.Sprintf("%s [lookup#%d under the other spelling]: an occupant always fails", construct, li+1), c.instrPos(g.at),
+				"from the edge on which an entry of the other kind occupies the destination "+bad+": an entry beneath a non-directory (or a file at a directory's place) would be accepted for some occupants")
+		}
+	}
+}
+
+// checkChangelogJoinsPlan (K5-changelog): the member deb generates for a
+// configured changelog takes a destination like any declared entry, and the
+// planner is what rejects a collision with one. The function that adds the
+// generated entry therefore adds it on every path once a changelog is
+// configured - a test of the declared contents in front of it ("already
+// there") would let a declared entry at that destination silently win.
+func checkChangelogJoinsPlan(c *Ctx, r *Report) {
+	pk := c.PackagerByFormat("deb")
+	if pk == nil {
+		return
+	}
+	n := 0
+	for _, fn := range sortedFuncs(c, c.Reach(pk.Package)) {
+		if c.funcPkgPath(fn) != pk.PkgPath {
+			continue
+		}
+		// the function that creates an entry of the changelog type
+		creates := false
+		forEachInstr(fn, func(in ssa.Instruction) {
+			st, ok := in.(*ssa.Store)
+			if !ok {
+				return
+			}
+			fa, ok := st.Addr.(*ssa.FieldAddr)
+			if !ok || !isContentPtr(fa.X.Type()) || fieldName(fa.X.Type(), fa.Field) != "Type" {
+				return
+			}
+			if k, isK := st.Val.(*ssa.Const); isK && isConstString(k) && constString(k) == typeDebChangelog {
+				creates = true
+			}
+		})
+		if !creates {
+			continue
+		}
+		n++
+		ev := newEvaluator(c)
+		info := newAObj("info")
+		info.Fields["Changelog"] = cStr("changelog.yaml")
+		ev.Defaults[c.infoPtrKey()] = info
+		fr := ev.Explore(fn, make([]AV, len(fn.Params)))
+		must := fr != nil && fr.MustReach(func(in ssa.Instruction, _ *Frame) bool {
+			st, ok := in.(*ssa.Store)
+			if !ok {
+				return false
+			}
+			p, root := addrPath(st.Addr)
+			return root != nil && strings.HasSuffix(p, "Contents") && isPtrToNamed(root.Type(), modPath, "Info")
+		})
+		r.Check(must, "K5-changelog", "deb: the generated changelog entry joins the contents whenever a changelog is configured ("+c.funcKey(fn)+")", c.pos(fn.Pos()),
+			"with a changelog configured some path returns without adding the entry: a declared entry at the changelog's destination would take its place without the collision being reported")
+	}
+	r.Floor("K5-changelog", n, 1)
 }
